@@ -197,7 +197,13 @@ type watched struct {
 // Half of the time it is overwritten at once (a restored context that still
 // looks into it then diverges from the model), otherwise it is kept and must
 // be found unchanged after every later operation.
-func (h *hist) afterRestore(raw []byte, who string) {
+func (h *hist) afterRestore(raw, asGiven []byte, who string) {
+	// asGiven is a copy taken BEFORE the decoder saw the buffer: decoding must
+	// not have written to it (the same bytes may be restored a second time)
+	if !lib.Eq(raw, asGiven) {
+		h.viol("C08:restored-context-writes-to-callers-buffer:"+who, "before", asGiven, "after", lib.Clone(raw), "when", "during Unmarshal")
+		return
+	}
 	if h.r.Bool() {
 		for i := range raw {
 			raw[i] = 0xEE ^ byte(i)
@@ -205,7 +211,7 @@ func (h *hist) afterRestore(raw []byte, who string) {
 		h.count("restore:buffer-overwritten")
 		return
 	}
-	h.watch = append(h.watch, watched{raw, lib.Clone(raw), who})
+	h.watch = append(h.watch, watched{raw, asGiven, who})
 	h.count("restore:buffer-watched")
 }
 
@@ -611,13 +617,14 @@ func (h *hist) opRestoreSealer() {
 		return
 	}
 	var s2 hpke.Sealer
+	asGiven := lib.Clone(raw)
 	if pn := lib.Try("hpke.UnmarshalSealer", raw, func() { s2, err = hpke.UnmarshalSealer(raw) }); pn != nil || err != nil || s2 == nil {
 		h.viol("C08:restore-refused:sealer", "raw", raw, "err", err, "panic", fmt.Sprint(pn != nil))
 		return
 	}
 	h.count("restore")
 	h.count("restore:sealer")
-	h.afterRestore(raw, "sealer")
+	h.afterRestore(raw, asGiven, "sealer")
 	if h.r.Bool() {
 		// twin step: the original and the restored object, same input, must
 		// give the same output (the model steps once, the restored object is
@@ -645,13 +652,14 @@ func (h *hist) opRestoreOpener() {
 		return
 	}
 	var o2 hpke.Opener
+	asGiven := lib.Clone(raw)
 	if pn := lib.Try("hpke.UnmarshalOpener", raw, func() { o2, err = hpke.UnmarshalOpener(raw) }); pn != nil || err != nil || o2 == nil {
 		h.viol("C08:restore-refused:opener", "raw", raw, "err", err, "panic", fmt.Sprint(pn != nil))
 		return
 	}
 	h.count("restore")
 	h.count("restore:opener")
-	h.afterRestore(raw, "opener")
+	h.afterRestore(raw, asGiven, "opener")
 	h.opener = o2
 }
 
@@ -708,6 +716,7 @@ func runHistory(id int, aead uint16, st start, idx int, log *eventLog) {
 	h.events = append(h.events, event{ctx: id, kind: evStart, seq: new(big.Int).Set(st.seq)})
 	var err error
 	rawS, rawO := h.raw(0, h.ms), h.raw(1, h.mo)
+	givenS, givenO := lib.Clone(rawS), lib.Clone(rawO)
 	if pn := lib.Try("hpke.UnmarshalSealer:crafted", rawS, func() { h.sealer, err = hpke.UnmarshalSealer(rawS) }); pn != nil || err != nil {
 		lib.Violation("C08:crafted-context-refused", mon, lib.D("raw", rawS, "err", err))
 		return
@@ -716,8 +725,8 @@ func runHistory(id int, aead uint16, st start, idx int, log *eventLog) {
 		lib.Violation("C08:crafted-context-refused", mon, lib.D("raw", rawO, "err", err))
 		return
 	}
-	h.afterRestore(rawS, "sealer")
-	h.afterRestore(rawO, "opener")
+	h.afterRestore(rawS, givenS, "sealer")
+	h.afterRestore(rawO, givenO, "opener")
 	depth := 12 + r.Intn(29)
 	opsSeen := map[string]bool{}
 	h.count("histories")
